@@ -226,13 +226,36 @@ def norm(v):
     return v
 
 
+class MDefaultDict:
+    """collections.defaultdict(list) with symbolic content: association list; missing keys read as the empty list"""
+    __slots__ = ("t",)
+
+    def __init__(self, t):
+        self.t = t
+
+    def entry(self, k):
+        return dget(vd(self.t), k, VList(VNil))
+
+
+class DDEntry:
+    """d[k] of an MDefaultDict: a view that can be appended to / iterated"""
+    __slots__ = ("d", "k")
+
+    def __init__(self, d, k):
+        self.d, self.k = d, k
+
+    @property
+    def t(self):
+        return self.d.entry(self.k)
+
+
 def is_symbolic(v):
     return isinstance(v, (SV, MList, MDict))
 
 
 def deep_symbolic(v, _depth=0):
     """True if v contains symbolic leaves or interpreter objects (cannot be handed to native code)."""
-    if isinstance(v, (SV, MList, MDict, Obj)):
+    if isinstance(v, (SV, MList, MDict, Obj, MDefaultDict, DDEntry)):
         return True
     if isinstance(v, (PDict, PList)) and v.m is not None:
         return True
@@ -263,7 +286,7 @@ def lower(v, _seen=None):
     import enum
     if isinstance(v, SV):
         return v.t
-    if isinstance(v, (MList, MDict)):
+    if isinstance(v, (MList, MDict, MDefaultDict, DDEntry)):
         return v.t
     if v is None:
         return VNone
